@@ -16,6 +16,8 @@ fn annotations(i: usize) -> Option<Vec<String>> {
         4 => Some(vec!["#[derive(AsnType, Debug, Clone, Decode, Encode, PartialEq, Eq, Hash, Default)]".into()]),
         // a trailing comma in the derive list
         5 => Some(vec!["#[derive(AsnType, Debug, Clone, Decode, Encode, PartialEq, Eq, Hash, PartialOrd,)]".into()]),
+        // `Copy`, which the backend adds on its own to BOOLEAN / NULL / ENUMERATED types
+        6 => Some(vec!["#[derive(AsnType, Debug, Clone, Copy, Decode, Encode, PartialEq, Eq, Hash)]".into()]),
         // a required derive (Debug, Clone) and a non-required one (Eq) named on two lines: each must come out once
         _ => Some(vec!["#[derive(AsnType, Debug, Clone, Decode, Encode, PartialEq, Eq, Hash)]".into(), "#[derive(Debug, Clone, Eq, PartialOrd)]".into()]),
     }
@@ -44,7 +46,7 @@ fn all_points() -> Vec<Point> {
     let mut v = vec![];
     for flags in 0..16u8 {
         for imports in 0..3 {
-            for ann in 0..6 {
+            for ann in 0..7 {
                 v.push(Point { flags, imports, ann });
             }
         }
@@ -67,7 +69,7 @@ fn edges(points: &[Point]) -> Vec<(Point, Point, &'static str)> {
             }
         }
         if p.ann == 0 {
-            for a in 1..6 {
+            for a in 1..7 {
                 e.push((*p, Point { ann: a, ..*p }, "type_annotations"));
             }
         }
@@ -325,7 +327,7 @@ fn payload_template(seed: u64, idx: u64) -> Vec<String> {
     let alts: Vec<String> = picks[..k].iter().enumerate().map(|(i, p)| format!("cq{i} {}", POOL[*p])).collect();
     vec![
         format!("Ma DEFINITIONS AUTOMATIC TAGS ::= BEGIN IMPORTS Tb, Ub FROM Mb;\nCq1 ::= CHOICE {{ {}, cq9 NULL }}\nEND\n", alts.join(", ")),
-        "Mb DEFINITIONS AUTOMATIC TAGS ::= BEGIN\nTb ::= BOOLEAN\nUb ::= SEQUENCE { x INTEGER }\nAllDef ::= SEQUENCE { a INTEGER DEFAULT 1, b BOOLEAN DEFAULT TRUE }\nAllDefSet ::= SET { c INTEGER (0..7) DEFAULT 3 }\nEND\n".to_string(),
+        "Mb DEFINITIONS AUTOMATIC TAGS ::= BEGIN\nTb ::= BOOLEAN\nUb ::= SEQUENCE { x INTEGER }\nAllDef ::= SEQUENCE { a INTEGER DEFAULT 1, b BOOLEAN DEFAULT TRUE }\nAllDefSet ::= SET { c INTEGER (0..7) DEFAULT 3 }\nFlagq ::= BOOLEAN\nNothingq ::= NULL\nColourq ::= ENUMERATED { red, green }\nHolderq ::= SEQUENCE { inline ENUMERATED { on, off } }\nEND\n".to_string(),
     ]
 }
 
@@ -393,7 +395,7 @@ impl Ord for Point {
 pub fn run(ctx: &Ctx) -> Report {
     let mut rep = Report::new(
         "exploration",
-        "grammar-G module sets (1..3 modules, imports, module-qualified references, CHOICEs with repeated payload types, ANY) compiled under the configuration lattice {2^4 boolean options} x {no, one, four custom imports, one of them a std:: path} x {default, extra derives, extra non-derive attribute, derives listed twice, `Default` among the derives, trailing comma in the derive list} = 288 points (quick: a 72-point sub-lattice containing every coordinate value) and compared along every edge that changes exactly one coordinate. Allowance per coordinate: generate_from_impls = only added `impl From<P> for Choice`, exactly one per alternative whose payload type occurs once in that CHOICE; default_wildcard_imports = only `use super::m::{..}` -> `use super::m::*` for the same sibling modules; no_std_compliant_bindings = only the LazyLock/lazy_static prelude line and the wrapping of statics (name, type, initialiser equal); custom_imports = only the configured use lines added to every module; type_annotations = only outer attributes of type items, rasn attributes unchanged, the six required derives exactly once; opaque_open_types = no type/value definition changes. Non-trivial = at least one edge compared; distinct by model hash.",
+        "grammar-G module sets (1..3 modules, imports, module-qualified references, CHOICEs with repeated payload types, ANY) compiled under the configuration lattice {2^4 boolean options} x {no, one, four custom imports, one of them a std:: path} x {default, extra derives, extra non-derive attribute, derives listed twice, `Default` among the derives, trailing comma in the derive list, `Copy` among the derives} = 336 points (quick: an 84-point sub-lattice containing every coordinate value) and compared along every edge that changes exactly one coordinate. Allowance per coordinate: generate_from_impls = only added `impl From<P> for Choice`, exactly one per alternative whose payload type occurs once in that CHOICE; default_wildcard_imports = only `use super::m::{..}` -> `use super::m::*` for the same sibling modules; no_std_compliant_bindings = only the LazyLock/lazy_static prelude line and the wrapping of statics (name, type, initialiser equal); custom_imports = only the configured use lines added to every module; type_annotations = only outer attributes of type items, rasn attributes unchanged, the six required derives exactly once; opaque_open_types = no type/value definition changes. Non-trivial = at least one edge compared; distinct by model hash.",
     );
     rep.must_observe = vec!["edges_compared[generate_from_impls]".into(), "edges_compared[type_annotations]".into(), "edges_compared[no_std_compliant_bindings]".into(), "from_impls_seen".into(), "default_impls_seen".into()];
     rep.assumptions = vec!["payload-type uniqueness is judged on the generated payload type tokens (module path and Box stripped)".into()];
@@ -403,7 +405,7 @@ pub fn run(ctx: &Ctx) -> Report {
         let mut v: Vec<Point> = all.iter().filter(|p| p.imports == 0 && p.ann == 0).cloned().collect();
         for f in [0u8, 5, 10, 15] {
             for i in 0..3 {
-                for a in 0..6 {
+                for a in 0..7 {
                     v.push(Point { flags: f, imports: i, ann: a });
                 }
             }
